@@ -824,11 +824,15 @@ def numeric_code_replay(x, cse: bool):
             else:
                 vals.append(rng.uniform(0.1, 0.9, size=5))
         try:
-            f, _ = npvc.lambdify_source(args, x, cse)
             g, _ = npvc.lambdify_source(args, x.doit(), cse)
-            a, b = np.asarray(f(*vals)), np.asarray(g(*vals))
+            b = np.asarray(g(*vals))
         except Exception as e:  # noqa: BLE001
-            return {"reproduced": False, "note": f"not numerically evaluable: {type(e).__name__}: {e}"[:200]}
+            return {"reproduced": False, "note": f"unfolded form not numerically evaluable: {type(e).__name__}: {e}"[:200]}
+        try:
+            f, src = npvc.lambdify_source(args, x, cse)
+            a = np.asarray(f(*vals))
+        except Exception as e:  # noqa: BLE001  (the unfolded code runs on these events, the folded code does not)
+            return {"reproduced": True, "input": f"lambdify({x}) on 5 random events; cse={cse}", "observed": f"{type(e).__name__}: {e}"[:200], "expected": str(b.reshape(-1)[:4]) + " (code generated from doit())"}
         try:
             err = float(np.max(np.abs(a - b)))
         except Exception as e:  # noqa: BLE001
